@@ -21,6 +21,7 @@ RULE = (
     "with a tie, a callable or a non-default parameter, or an error ending; distinct by 64-bit hash of "
     "(aggregation, flavours, key sequences, callables, parameters)."
     " Extensions of rounds 9-12: items whose truth value cannot be taken; keys returning one shared None, NaN (min/max) or objects knowing only < and ==; one key function object used by two aggregations in a row with different return kinds."
+    " Round 13: sum of strings onto a neutral start; per invocation, each aggregation's first use in a fresh interpreter (an awaitable object among the items) followed by an ordinary call."
 )
 COMPONENTS = COMPONENTS_BASE
 ASSUMPTIONS = [
